@@ -266,7 +266,7 @@ void harness_reinit(void)
 	if ((VP_ADDED) & 4) { r = event_add(&sv, NULL); VP_ASSERT(r == 0, "C11: signal add before fork"); }
 	vp_k_wait_fail = EINTR;
 	r = event_base_loop(base, EVLOOP_NONBLOCK);   /* the parent has been through a wait: registrations are in the kernel */
-	VP_ASSERT(waits_on_new == 1, "C11: parent waited once");
+	VP_ASSERT(waits_on_new == ((VP_ADDED) ? 1 : 0), "C11: parent waited once (a loop without events returns at once)");
 
 #ifndef VP_DEBUG_NO_REINIT
 	/* ---- fork(): we are the child ---- */
@@ -279,9 +279,7 @@ void harness_reinit(void)
 #else
 	vp_k_forked = 1; vp_k_nep = 2; vp_kf[old_epfd].inst = 1; vp_kep[1] = vp_kep[0];
 #endif
-#ifndef KF_SKIP_DOUBLE_CLOSE
 	VP_ASSERT(vp_k_close_ebadf == 0, "C11: event_reinit closes a descriptor number it has already closed (double close; another thread's new descriptor could be hit)");
-#endif
 
 #ifdef VP_STOP_AFTER_REINIT
 	VP_WITNESS("event_reinit returned in the child");
@@ -302,7 +300,7 @@ void harness_reinit(void)
 	}
 	vp_kf[FD_A].ready = POLLIN | POLLOUT | POLLRDHUP;
 	r = event_base_loop(base, EVLOOP_ONCE | EVLOOP_NONBLOCK);
-	VP_ASSERT(waits_on_old == 0 && waits_on_new >= 2, "C11: the child waits on its own epoll instance");
+	VP_ASSERT(waits_on_old == 0 && ((VP_ADDED) ? waits_on_new >= 2 : waits_on_new == 0), "C11: the child waits on its own epoll instance");
 	if ((VP_ADDED) & 1) VP_ASSERT(ncb_io[0] == 1 && (res_io[0] & ~(mask[0] | EV_ET)) == 0, "C11: an I/O event added before the fork fires in the child");
 	else VP_ASSERT(ncb_io[0] == 0, "C11: an event that was not added does not fire");
 	VP_ASSERT(ncb_io[1] == 0, "C11: an event whose fd is not ready does not fire");
